@@ -365,8 +365,8 @@ Proof.
     + destruct H.
   - destruct (dstep_childend cfg d d' ev Hwf I A) as (_ & S). apply Hsame; [exact S| |reflexivity].
     unfold drr_act in A. destruct (dchd d) as [| | |p]; try discriminate. destruct (dctrl d) as [| | |c rest]; try discriminate.
-    cbv zeta in A. destruct (dcontinue cfg rest _) as [[d2 e2]|] eqn:Dc; [|discriminate]. injection A as <- <-.
-    cbn [app dforwards flat_map]. apply (dcontinue_nofwd _ _ _ _ _ (dinner_nofwd _ _ _) Dc).
+    destruct (dcontinue cfg rest _) as [[d2 e2]|] eqn:Dc; [|discriminate]. injection A as <- <-.
+    change (dforwards e2 = []). apply (dcontinue_nofwd _ _ _ _ _ (dinner_nofwd _ _ _) Dc).
   - (* DAdvance *) unfold drr_act in A. destruct (durgent cfg d); [discriminate|]. destruct (Qlt_le_dec (dnow d) t); [|discriminate].
     cbv zeta in A.
     assert (E0 : ev = [] /\ d' = {| dnow := t; dtok := dtok d; dst := dst d; dqcnt := dqcnt d; dqbytes := dqbytes d; dtotal := dtotal d;
